@@ -227,8 +227,8 @@ def run(index, rep, tier):
 
     # ---- R04.8
     with rep.section("R04.8"):
-        rep.rule("R04.8", "what the weighted distances read is right: the split normalisation bit is derived from the tree's own leaf set on every encode (C01 R01.3) and a spliced-out unifurcation's edge length is merged into its child's in all None-ness cases (C08 R08.6), including the basal bifurcation every unrooted encode collapses (C07 R07.4, R07.6), the bit of a taxon is stable and unique, and bipartitions are compared and hashed by value symmetrically (C01 R01.1, R01.4, R01.8) - all of these decide the lengths the distance kernels pair up")
-        nb = borrow(index, rep, "C01", {"R01.3"}, "R04.8") + borrow(index, rep, "C08", {"R08.6"}, "R04.8") + borrow(index, rep, "C07", {"R07.4", "R07.6"}, "R04.8") + borrow(index, rep, "C01", {"R01.1", "R01.4", "R01.8"}, "R04.8")
+        rep.rule("R04.8", "what the weighted distances read is right: the split normalisation bit is derived from the tree's own leaf set on every encode (C01 R01.3) and a spliced-out unifurcation's edge length is merged into its child's in all None-ness cases (C08 R08.6), including the basal bifurcation every unrooted encode collapses (C07 R07.4, R07.6), the bit of a taxon is stable and unique, and bipartitions are compared and hashed by value symmetrically (C01 R01.1, R01.4, R01.8), a re-drawing made by extraction or copying carries the rooting state over (C12 R12.3) - all of these decide the lengths the distance kernels pair up")
+        nb = borrow(index, rep, "C01", {"R01.3"}, "R04.8") + borrow(index, rep, "C08", {"R08.6"}, "R04.8") + borrow(index, rep, "C07", {"R07.4", "R07.6"}, "R04.8") + borrow(index, rep, "C01", {"R01.1", "R01.4", "R01.8"}, "R04.8") + borrow(index, rep, "C12", {"R12.3"}, "R04.8")
         rep.floor("R04.8", "borrowed obligations", 6, nb)
 
     # ---- R04.6
@@ -290,6 +290,39 @@ def run(index, rep, tier):
                 ok = bool(src) and isinstance(src[0].value, ast.Call) and call_name(src[0].value) == "false_positives_and_negatives"
         rep.check(ok, "R04.5", fi.qualname, "sum of the two one-sided differences", fn_where(fi),
                   "symmetric_difference = false positives + false negatives", "symmetric_difference is no longer the sum of the two one-sided differences")
+
+    # ---- R04.9 the flag is the caller's word
+    with rep.section("R04.9"):
+        rep.rule("R04.9", "the freshness flag is the caller's statement: a function binds the name only as its parameter or from the caller's keyword arguments (kwargs.pop/get with a False default) - it is never recomputed from the state of the trees, which cannot tell a stale encoding from a fresh one")
+        n9 = 0
+        for m in sorted(index.modules):
+            if not m.startswith("dendropy.") or ".test" in m or ".legacy" in m:
+                continue
+            for fi in index.functions_in_module(m):
+                for st in walk_no_nested(fi.node):
+                    tg = []
+                    if isinstance(st, ast.Assign):
+                        tg = st.targets
+                    elif isinstance(st, (ast.AugAssign, ast.AnnAssign)):
+                        tg = [st.target]
+                    elif isinstance(st, ast.NamedExpr):
+                        tg = [st.target]
+                    for t in tg:
+                        for nm in ast.walk(t):
+                            if isinstance(nm, ast.Name) and nm.id == FLAG:
+                                n9 += 1
+                                v = getattr(st, "value", None)
+                                ok = False
+                                if isinstance(v, ast.Call) and call_name(v) in ("pop", "get") and v.args and isinstance(v.args[0], ast.Constant) and v.args[0].value == FLAG:
+                                    d = v.args[1] if len(v.args) > 1 else None
+                                    ok = d is None or (isinstance(d, ast.Constant) and d.value in (False, None))
+                                elif isinstance(v, ast.Constant) and v.value is False:
+                                    ok = True
+                                rep.check(ok, "R04.9", fi.qualname, "flag rebound", fn_where(fi, st),
+                                          "%s binds %s from the caller's keywords" % (fi.name, FLAG),
+                                          "%s rebinds `%s` to `%s`: the flag no longer says what the caller said, so with default arguments the comparison can skip the re-encode and answer from bipartitions cached before the trees were modified"
+                                          % (fi.qualname, FLAG, norm(v) if v is not None else "?"))
+        rep.floor("R04.9", "bindings of the flag examined", 1, n9)
 
 
 def _length_symmetry(rep, fi):
